@@ -7,6 +7,7 @@ import (
 	"errors"
 	"fmt"
 	"io"
+	"math"
 	"strconv"
 	"strings"
 	"time"
@@ -158,6 +159,13 @@ func encodeFixedLengthFormat(ctx context.Context, fp io.Writer, view *View, opti
 		}
 
 	} else {
+		for _, pos := range options.DelimiterPositions {
+			// A line is built in memory, so that a position beyond this limit can only end in a failed allocation.
+			if math.MaxInt32 < pos {
+				return NewDataEncodingError(fmt.Sprintf("delimiter position %d is too large", pos))
+			}
+		}
+
 		w, err := fixedlen.NewWriter(fp, options.DelimiterPositions, options.LineBreak, options.Encoding)
 		if err != nil {
 			return NewDataEncodingError(err.Error())
